@@ -177,7 +177,7 @@ theorem step_extends (h : Heap) (w : WF h) (e : Ev) : Extends h (step h e) ∧ W
       cases o with
       | fn b n s => exact ⟨extends_pushObj _ _, wf_pushObj_nonseq w _ (by intro p hp; cases hp)⟩
       | _ => exact ⟨Extends.refl h, w⟩
-  | rget r =>
+  | rget r dec =>
     simp only [step, stepWith]
     cases hr : h.objs[r]? with
     | none => exact ⟨Extends.refl h, w⟩
@@ -187,21 +187,25 @@ theorem step_extends (h : Heap) (w : WF h) (e : Ev) : Extends h (step h e) ∧ W
         cases loaded with
         | true => exact ⟨Extends.refl h, w⟩
         | false =>
-          simp only
-          refine ⟨⟨Nat.le_refl _, fun _ _ => rfl, by simp [pushLog], ?_, ⟨[(s, ⟨b, .dods, [id], [], []⟩), (s, ⟨b, .das, [id], [], []⟩)], by simp [pushLog]⟩⟩, ?_⟩
-          · intro r' hr'
-            simp only [pushLog]
-            by_cases hrr : r = r'
-            · subst hrr
-              rw [List.getElem?_set_self (by simpa using hr'), hr]
-              simp [strip]
-            · rw [List.getElem?_set_ne hrr]
-          · intro p hp
-            simp only [pushLog] at hp
-            have := List.mem_or_eq_of_mem_set hp
-            rcases this with hm | hm
-            · exact w p hm
-            · cases hm
+          cases dec with
+          | false => exact ⟨extends_pushLog _ _ _, wf_pushLog w _ _⟩
+          | true =>
+            simp only [if_true]
+            refine ⟨⟨Nat.le_refl _, fun _ _ => rfl, by simp [pushLog], ?_,
+              ⟨[(s, ⟨b, .dods, [id], [], []⟩), (s, ⟨b, .das, [id], [], []⟩)], by simp [pushLog]⟩⟩, ?_⟩
+            · intro r' hr'
+              simp only [pushLog]
+              by_cases hrr : r = r'
+              · subst hrr
+                rw [List.getElem?_set_self (by simpa using hr'), hr]
+                simp [strip]
+              · rw [List.getElem?_set_ne hrr]
+            · intro p hp
+              simp only [pushLog] at hp
+              have := List.mem_or_eq_of_mem_set hp
+              rcases this with hm | hm
+              · exact w p hm
+              · cases hm
       | _ => exact ⟨Extends.refl h, w⟩
 
 theorem run_extends (h : Heap) (w : WF h) (evs : List Ev) : Extends h (run h evs) ∧ WF (run h evs) := by
@@ -363,7 +367,7 @@ theorem step_sessInv (σ : Sess) (h : Heap) (i : SessInv σ h) (e : Ev) : SessIn
       cases o with
       | fn b n s => exact sessInv_pushObj i _ (by have := hget r _ hr; exact this)
       | _ => exact i
-  | rget r =>
+  | rget r dec =>
     simp only [step, stepWith]
     cases hr : h.objs[r]? with
     | none => exact i
@@ -375,14 +379,17 @@ theorem step_sessInv (σ : Sess) (h : Heap) (i : SessInv σ h) (e : Ev) : SessIn
         | false =>
           have hs : s = σ := hget r _ hr
           subst hs
-          simp only
-          have i2 := sessInv_pushLog (sessInv_pushLog i ⟨b, .dods, [id], [], []⟩) ⟨b, .das, [id], [], []⟩
-          refine ⟨?_, i2.2⟩
-          intro o ho
-          have := List.mem_or_eq_of_mem_set ho
-          rcases this with hm | hm
-          · exact i2.1 o hm
-          · rw [hm]; rfl
+          cases dec with
+          | false => exact sessInv_pushLog i _
+          | true =>
+            simp only [if_true]
+            have i2 := sessInv_pushLog (sessInv_pushLog i ⟨b, .dods, [id], [], []⟩) ⟨b, .das, [id], [], []⟩
+            refine ⟨?_, i2.2⟩
+            intro o ho
+            have := List.mem_or_eq_of_mem_set ho
+            rcases this with hm | hm
+            · exact i2.1 o hm
+            · rw [hm]; rfl
       | _ => exact i
 
 theorem run_sessInv (σ : Sess) (h : Heap) (i : SessInv σ h) (evs : List Ev) : SessInv σ (run h evs) := by
